@@ -1,0 +1,169 @@
+//! Verification hooks (cargo feature `verif`, off by default; add-only).
+//!
+//! Re-exports of private text helpers of range formatting, and access to the formatter's two
+//! stages — syntax → IR and IR → text — so that an external harness can compare the printer with
+//! an executable model on real and on synthetic IRs.
+
+use crate::ir::{self, AlignEntry, DocIR, GroupId};
+use crate::printer::Printer;
+use crate::{LuaFormatConfig, SourceText};
+use emmylua_parser::{LuaParser, ParserConfig};
+
+pub use crate::formatter::range_format::verif as range_text;
+
+/// Build the IR for `source` (None when the source has syntax errors, as `reformat_lua_code`).
+pub fn format_to_ir(source: &SourceText, config: &LuaFormatConfig) -> Option<Vec<DocIR>> {
+    let tree = LuaParser::parse(source.text, ParserConfig::with_level(source.level));
+    if tree.has_syntax_errors() {
+        return None;
+    }
+    let ctx = crate::formatter::FormatContext::new(config);
+    Some(crate::formatter::format_chunk(&ctx, &tree.get_chunk_node()))
+}
+
+/// Print an IR with the real printer.
+pub fn print_ir(docs: &[DocIR], config: &LuaFormatConfig) -> String {
+    Printer::new(config).print(docs)
+}
+
+pub fn group_id(n: u32) -> GroupId {
+    GroupId(n)
+}
+
+fn hex(s: &str, out: &mut String) {
+    if s.is_empty() {
+        out.push('-');
+    }
+    for b in s.as_bytes() {
+        out.push_str(&format!("{b:02x}"));
+    }
+}
+
+fn list(tag: &str, docs: &[DocIR], out: &mut String) {
+    out.push('(');
+    out.push_str(tag);
+    for d in docs {
+        out.push(' ');
+        doc(d, out);
+    }
+    out.push(')');
+}
+
+fn gid(id: &Option<GroupId>, out: &mut String) {
+    match id {
+        Some(g) => out.push_str(&g.0.to_string()),
+        None => out.push('-'),
+    }
+}
+
+fn opt(t: &Option<Vec<DocIR>>, out: &mut String) {
+    match t {
+        Some(t) => list("s", t, out),
+        None => out.push('-'),
+    }
+}
+
+fn doc(d: &DocIR, out: &mut String) {
+    match d {
+        DocIR::Text(s) => {
+            out.push_str("(t ");
+            hex(s, out);
+            out.push(')');
+        }
+        DocIR::SourceNode { node, trim_end } => {
+            let text = node.text();
+            let s = if *trim_end {
+                text.slice(..ir::syntax_text_trimmed_end(&text)).to_string()
+            } else {
+                text.to_string()
+            };
+            out.push_str("(t ");
+            hex(&s, out);
+            out.push(')');
+        }
+        DocIR::SourceToken(token) => {
+            out.push_str("(t ");
+            hex(token.text(), out);
+            out.push(')');
+        }
+        DocIR::SyntaxToken(kind) => {
+            out.push_str("(t ");
+            hex(kind.syntax_text().unwrap_or(""), out);
+            out.push(')');
+        }
+        DocIR::HardLine => out.push_str("hl"),
+        DocIR::SoftLine => out.push_str("sl"),
+        DocIR::SoftLineOrEmpty => out.push_str("se"),
+        DocIR::Space => out.push_str("sp"),
+        DocIR::Indent(c) => list("i", c, out),
+        DocIR::Group {
+            contents,
+            should_break,
+            id,
+        } => {
+            out.push_str("(g ");
+            out.push(if *should_break { '1' } else { '0' });
+            out.push(' ');
+            gid(id, out);
+            out.push(' ');
+            list("s", contents, out);
+            out.push(')');
+        }
+        DocIR::List(c) => list("l", c, out),
+        DocIR::IfBreak {
+            break_contents,
+            flat_contents,
+            group_id,
+        } => {
+            out.push_str("(b ");
+            gid(group_id, out);
+            out.push(' ');
+            doc(break_contents, out);
+            out.push(' ');
+            doc(flat_contents, out);
+            out.push(')');
+        }
+        DocIR::Fill { parts } => list("f", parts, out),
+        DocIR::LineSuffix(c) => list("x", c, out),
+        DocIR::AlignGroup(group) => {
+            out.push_str("(a");
+            for e in &group.entries {
+                out.push(' ');
+                match e {
+                    AlignEntry::Aligned {
+                        before,
+                        after,
+                        trailing,
+                    } => {
+                        out.push_str("(A ");
+                        list("s", before, out);
+                        out.push(' ');
+                        list("s", after, out);
+                        out.push(' ');
+                        opt(trailing, out);
+                        out.push(')');
+                    }
+                    AlignEntry::Line { content, trailing } => {
+                        out.push_str("(L ");
+                        list("s", content, out);
+                        out.push(' ');
+                        opt(trailing, out);
+                        out.push(')');
+                    }
+                }
+            }
+            out.push(')');
+        }
+    }
+}
+
+/// Canonical S-expression of an IR; source nodes/tokens are resolved to the text the printer emits.
+///
+/// `(t HEX)` text · `hl` `sl` `se` `sp` · `(i d*)` indent · `(g B ID (s d*))` group · `(l d*)` list ·
+/// `(b ID d d)` if-break (break, flat) · `(f d*)` fill · `(x d*)` line suffix ·
+/// `(a e*)` align group with `e = (A (s d*) (s d*) T) | (L (s d*) T)`, `T = - | (s d*)`; `ID = - | n`.
+pub fn ir_to_sexpr(docs: &[DocIR]) -> String {
+    let mut out = String::new();
+    list("s", docs, &mut out);
+    out
+}
